@@ -1,7 +1,7 @@
 //! G-text: hostile source text for the front end.
 
 use crate::gen;
-use crate::rkiki::{self, KikiGrammar, RItem, RFieldset, RSym, RType};
+use crate::rkiki::{self, KikiGrammar, RAttr, RItem, RFieldset, RSym, RType};
 use crate::rlex::{self, K};
 use crate::rng::Rng;
 
@@ -252,6 +252,50 @@ fn type_text(t: &RType) -> String {
     let mut toks = vec![];
     t.token_texts(&mut toks);
     toks.join("")
+}
+
+/// rustc's lint groups and the lints about naming, dead code and style: what users put into
+/// `#[allow(..)]` on grammar declarations.
+pub const LINT_NAMES: &[&str] = &[
+    "warnings", "unused", "nonstandard_style", "bad_style", "non_camel_case_types", "non_snake_case", "non_upper_case_globals", "dead_code", "unused_variables",
+    "unused_imports", "unused_mut", "unreachable_code", "unreachable_patterns", "clippy::all", "clippy::pedantic", "clippy::style", "clippy::upper_case_acronyms",
+    "clippy::enum_variant_names", "clippy::large_enum_variant", "missing_docs", "rust_2018_idioms", "future_incompatible", "deprecated", "improper_ctypes", "unused_parens",
+    "private_interfaces", "ambiguous_associated_items", "non_ascii_idents", "confusable_idents", "mixed_script_confusables", "uncommon_codepoints",
+];
+
+/// Put 1-3 attributes on random declarations: lint attributes (`allow` / `warn` / `deny` / `forbid` /
+/// `expect` over real lint names), derive lists, cfg / doc attributes.  Attributes never influence
+/// validation; a validator that peeks at them is wrong.
+pub fn decorate_items(items: &mut [RItem], rng: &mut Rng) {
+    let decls: Vec<usize> = (0..items.len()).filter(|i| !matches!(items[*i], RItem::Start(_))).collect();
+    if decls.is_empty() {
+        return;
+    }
+    for _ in 0..rng.range(1, 3) {
+        let text = match rng.below(6) {
+            0..=2 => {
+                let level = rng.pick_str(&["allow", "allow", "allow", "warn", "deny", "forbid", "expect"]);
+                let k = rng.range(1, 3);
+                let lints: Vec<&str> = (0..k).map(|_| rng.pick_str(LINT_NAMES)).collect();
+                let sep = rng.pick_str(&[", ", ",", " , "]);
+                format!("#[{level}({}{})]", lints.join(sep), rng.pick_str(&["", "", ","]))
+            }
+            3 => "#[derive(Debug, Clone, PartialEq)]".to_string(),
+            4 => rng.pick_str(&["#[cfg(test)]", "#[doc = \"x\"]", "#[repr(u8)]", "#[non_exhaustive]", "#[must_use]", "#[rustfmt::skip]", "#[cfg_attr(test, allow(nonstandard_style))]"]).to_string(),
+            _ => {
+                let d = repo_dictionary();
+                d.pick_attr(rng).unwrap_or_else(|| "#[automatically_derived]".to_string())
+            }
+        };
+        let i = *rng.pick(&decls);
+        match &mut items[i] {
+            RItem::Struct { attrs, .. } | RItem::Enum { attrs, .. } | RItem::Terminal { attrs, .. } => {
+                let at = rng.below(attrs.len() + 1);
+                attrs.insert(at, RAttr { src: text, pos: 0 });
+            }
+            RItem::Start(_) => {}
+        }
+    }
 }
 
 pub fn render_items(items: &[RItem]) -> String {
@@ -675,6 +719,16 @@ pub struct RepoDictionary {
     pub placeholders: Vec<String>,
     /// CamelCase identifiers (types, variants) of the sources.
     pub camel: Vec<String>,
+    /// String literals of the sources (3..80 bytes, escapes undone), e.g. magic attribute keys.
+    pub literals: Vec<String>,
+    /// Whole attributes that can be assembled from them: literals that already are `#[...]`, and
+    /// `#[a(b = "c")]` / `#[a(b)]` / `#[a = "c"]` combinations of short word-like literals.
+    pub attr_literals: Vec<String>,
+    /// The first `n_snippets` entries of `attr_literals` are attributes found written out in the sources
+    /// (and their quoted-value variants); the rest are assembled from words.
+    pub n_snippets: usize,
+    /// Names of environment variables the sources read (`env::var("X")`, `env!("X")` ...).
+    pub env_vars: Vec<String>,
     pub files_read: usize,
 }
 
@@ -684,6 +738,12 @@ pub fn repo_dictionary() -> &'static RepoDictionary {
         let root = std::env::var("KV_REPO").unwrap_or_else(|_| "/repo".to_string());
         let mut placeholders = std::collections::BTreeSet::new();
         let mut camel = std::collections::BTreeSet::new();
+        let mut literals = std::collections::BTreeSet::new();
+        let mut env_vars = std::collections::BTreeSet::new();
+        // every `#[...]` written anywhere in the sources, comments and documentation included (an
+        // attribute the generator documents is an attribute it may react to), and the variants obtained
+        // by replacing a quoted value in it
+        let mut attr_snippets: std::collections::BTreeSet<String> = std::collections::BTreeSet::new();
         let mut files_read = 0;
         let mut stack = vec![std::path::PathBuf::from(root).join("kiki").join("src")];
         while let Some(dir) = stack.pop() {
@@ -702,6 +762,82 @@ pub fn repo_dictionary() -> &'static RepoDictionary {
                 }
                 files_read += 1;
                 let b = text.as_bytes();
+                for line in text.lines() {
+                    let lb = line.as_bytes();
+                    let mut a = 0;
+                    while a + 1 < lb.len() {
+                        if lb[a] == b'#' && lb[a + 1] == b'[' {
+                            let mut depth = 0i32;
+                            let mut e = a + 1;
+                            let mut in_str = false;
+                            while e < lb.len() {
+                                match lb[e] {
+                                    b'"' => in_str = !in_str,
+                                    b'[' | b'(' | b'{' if !in_str => depth += 1,
+                                    b']' | b')' | b'}' if !in_str => {
+                                        depth -= 1;
+                                        if depth == 0 {
+                                            break;
+                                        }
+                                    }
+                                    _ => {}
+                                }
+                                e += 1;
+                            }
+                            if e < lb.len() && lb[e] == b']' && e - a <= 120 && line.is_char_boundary(a) && line.is_char_boundary(e + 1) {
+                                let snippet = line[a..=e].replace("\\\"", "\"");
+                                if !snippet.contains('{') && snippet.is_ascii() {
+                                    attr_snippets.insert(snippet);
+                                }
+                            }
+                            a = e.max(a + 2);
+                        } else {
+                            a += 1;
+                        }
+                    }
+                }
+                // string literals (plain "..." with escapes; raw strings r#"..."# are scanned as well
+                // because their inner quotes simply split them into several pieces)
+                let mut k = 0;
+                while k < b.len() {
+                    if b[k] == b'"' {
+                        let mut j = k + 1;
+                        let mut lit = String::new();
+                        let mut ok = false;
+                        while j < b.len() {
+                            match b[j] {
+                                b'\\' if j + 1 < b.len() => {
+                                    match b[j + 1] {
+                                        b'"' => lit.push('"'),
+                                        b'\\' => lit.push('\\'),
+                                        b'n' | b'r' | b't' | b'0' => lit.push(' '),
+                                        _ => {}
+                                    }
+                                    j += 2;
+                                }
+                                b'"' => {
+                                    ok = true;
+                                    break;
+                                }
+                                b'\n' => break,
+                                c => {
+                                    lit.push(c as char);
+                                    j += 1;
+                                }
+                            }
+                        }
+                        if ok && lit.len() >= 3 && lit.len() <= 80 && lit.is_ascii() && !lit.contains('{') {
+                            let before = &text[k.saturating_sub(24)..k];
+                            if before.contains("env::var") || before.contains("env!(") || before.contains("var_os(") || before.contains("option_env!(") {
+                                env_vars.insert(lit.clone());
+                            }
+                            literals.insert(lit);
+                        }
+                        k = j + 1;
+                    } else {
+                        k += 1;
+                    }
+                }
                 let mut i = 0;
                 while i < b.len() {
                     if b[i] == b'{' && (i == 0 || b[i - 1] != b'{') {
@@ -728,10 +864,97 @@ pub fn repo_dictionary() -> &'static RepoDictionary {
                 }
             }
         }
+        let literals: Vec<String> = literals.into_iter().collect();
+        // whole attributes
+        let mut attr_literals: Vec<String> = std::mem::take(&mut attr_snippets).into_iter().collect();
+        let balanced = |t: &str| {
+            let mut st = vec![];
+            for c in t.chars() {
+                match c {
+                    '(' | '[' | '{' => st.push(c),
+                    ')' => {
+                        if st.pop() != Some('(') {
+                            return false;
+                        }
+                    }
+                    ']' => {
+                        if st.pop() != Some('[') {
+                            return false;
+                        }
+                    }
+                    '}' => {
+                        if st.pop() != Some('{') {
+                            return false;
+                        }
+                    }
+                    _ => {}
+                }
+            }
+            st.is_empty()
+        };
+        for l in &literals {
+            if l.starts_with("#[") && l.ends_with(']') && !l.contains('\n') && balanced(l) {
+                attr_literals.push(l.clone());
+            }
+        }
+        // quoted values inside harvested attributes replaced by other short literals
+        {
+            let values: Vec<&String> = literals.iter().filter(|l| l.len() <= 16 && !l.contains('"') && !l.contains('\\') && balanced(l)).take(80).collect();
+            let base: Vec<String> = attr_literals.clone();
+            for a in &base {
+                if let (Some(i), Some(j)) = (a.find('"'), a.rfind('"')) {
+                    if i < j {
+                        for v in &values {
+                            attr_literals.push(format!("{}\"{}\"{}", &a[..i], v, &a[j + 1..]));
+                            // (and without blanks around `=`)
+                            attr_literals.push(format!("{}\"{}\"{}", a[..i].replace(" = ", "="), v, &a[j + 1..]));
+                        }
+                    }
+                }
+            }
+        }
+        let n_snippets = attr_literals.len();
+        let wordish: Vec<&String> = literals.iter().filter(|l| l.len() <= 24 && l.chars().all(|c| c.is_ascii_alphanumeric() || c == '_')).collect();
+        let valueish: Vec<&String> = literals.iter().filter(|l| l.len() <= 24 && !l.contains('"') && !l.contains('\\') && balanced(l)).collect();
+        if wordish.len() <= 60 {
+            for a in &wordish {
+                for bb in &wordish {
+                    if a != bb {
+                        attr_literals.push(format!("#[{a}({bb})]"));
+                        for v in valueish.iter().take(60) {
+                            attr_literals.push(format!("#[{a}({bb} = \"{v}\")]"));
+                            attr_literals.push(format!("#[{a}({bb}=\"{v}\")]"));
+                        }
+                    }
+                }
+                for v in valueish.iter().take(60) {
+                    attr_literals.push(format!("#[{a} = \"{v}\"]"));
+                }
+            }
+        }
+        attr_literals.truncate(400_000);
         RepoDictionary {
             placeholders: placeholders.into_iter().collect(),
             camel: camel.into_iter().collect(),
+            literals,
+            attr_literals,
+            n_snippets,
+            env_vars: env_vars.into_iter().collect(),
             files_read,
         }
     })
+}
+
+impl RepoDictionary {
+    /// An attribute from the dictionary: mostly one that is written out somewhere in the sources.
+    pub fn pick_attr(&self, rng: &mut Rng) -> Option<String> {
+        if self.attr_literals.is_empty() {
+            return None;
+        }
+        if self.n_snippets > 0 && rng.chance(0.65) {
+            Some(self.attr_literals[rng.below(self.n_snippets)].clone())
+        } else {
+            Some(rng.pick(&self.attr_literals).clone())
+        }
+    }
 }
